@@ -1,9 +1,11 @@
 /-
 C08 — clauses that are false of the current code, refuted on concrete inputs.  Each is mirrored by
-a `finding:` line of known_findings.txt and a replay function in py/props/c08.py.
+a `finding:` line of known_findings.txt and a replay function in py/props/c08.py.  At the end: the
+inputs of repaired findings, kept as regression statements of the now-correct behaviour.
 -/
 import WpModel.Model.BoxGen
 import WpModel.Lemmas.Grid
+import WpModel.Lemmas.Whitespace
 import WpModel.Lemmas.Boxes
 
 namespace Wp.Witness.C08
@@ -46,26 +48,51 @@ theorem running_row_not_fixed :
       | .ok _ => none | .error e => some e) = some .attributeError := by
   constructor <;> rfl
 
-/-- `<div style="display:flex"><div style="display:inline-table">…`: `flex_children` replaces the
-inline-block table wrapper by a plain anonymous block: the table is no longer in a table wrapper. -/
-theorem inline_table_item_loses_wrapper :
+/-- `<div style="float:left">a <span> b</span></div>`: `process_whitespace` hands the state
+"a collapsible space precedes" from child to child only `if box.is_in_normal_flow() and …`: inside a
+floated (absolutely positioned, running) box every run starts from the state the box was entered with,
+so the space that begins ` b` stays after the one that ends `a `: two consecutive collapsible spaces in
+one inline formatting context.  In a box in normal flow the same children give `a b`.  Refutes
+`whitespace_across_boxes` without its hypothesis that the box is in normal flow. -/
+theorem out_of_flow_container_spaces_not_collapsed :
+    leafText (pw (.mk .BlockBox { flt := true } {} {} [] [tx [97, 32], bx .InlineBox [tx [32, 98]]] []) false).1
+      = [97, 32, 32, 98] ∧
+    leafText (pw (.mk .BlockBox { abs := true } {} {} [] [tx [97, 32], tx [32, 98]] []) false).1
+      = [97, 32, 32, 98] ∧
+    leafText (pw (bx .BlockBox [tx [97, 32], bx .InlineBox [tx [32, 98]]]) false).1 = [97, 32, 98] ∧
+    noDoubleSp [97, 32, 32, 98] = false := by
+  refine ⟨by rfl, by rfl, by rfl, by rfl⟩
+
+/-! ## Regression cases of repaired findings (`fixed:` lines of known_findings.txt)
+
+The three inputs below were witnesses of defects; the code has been repaired and the statements now
+say what the repaired code does on the same inputs.  The general theorems are in `Props/C08.lean`
+(`flex_grid_keeps_wrappers`, `is_whitespace_is_css_white_space`, `marker_display_none`). -/
+
+/-- `<div style="display:flex"><div style="display:inline-table">…` (fixed by 97f25f2): `flex_children`
+replaces the inline-block table wrapper by an anonymous block *that is still a table wrapper*. -/
+theorem inline_table_item_keeps_wrapper :
     (match createAnonymousBoxes (bx .FlexBox [bx .InlineTableBox []]) with
       | .ok r => r.kids.map (fun (w : KBox) => (w.kind, w.inst.wrapper, w.kids.map (fun (t : KBox) => t.kind)))
-      | .error _ => []) = [(.BlockBox, false, [.InlineTableBox])] := by
-  decide +kernel
+      | .error _ => []) = [(.BlockBox, true, [.InlineTableBox])] ∧
+    (match createAnonymousBoxes (bx .GridBox [bx .InlineTableBox []]) with
+      | .ok r => r.kids.map (fun (w : KBox) => (w.kind, w.inst.wrapper, w.kids.map (fun (t : KBox) => t.kind)))
+      | .error _ => []) = [(.BlockBox, true, [.InlineTableBox])] := by
+  constructor <;> decide +kernel
 
-/-- A no-break space between two rows is not CSS white space, yet rule 1.4 deletes it (`\S`). -/
-theorem nbsp_between_rows_dropped :
+/-- A no-break space between two rows is not CSS white space (fixed by f280b41): rule 1.4 keeps it; it
+ends up in an anonymous row (and cell) of its own between the two rows. -/
+theorem nbsp_between_rows_kept :
     (match atb (bx .TableBox [bx .TableRowBox [], tx [160], bx .TableRowBox []]) with
-      | .ok r => leafText r | .error _ => [0]) = [] ∧
-    leafText (bx .TableBox [bx .TableRowBox [], tx [160], bx .TableRowBox []]) = [160] := by
-  constructor <;> rfl
+      | .ok r => leafText r | .error _ => [0]) = [160] ∧
+    (match atb (bx .TableBox [bx .TableRowBox [], tx [32, 10], bx .TableRowBox []]) with
+      | .ok r => leafText r | .error _ => [0]) = [] := by
+  constructor <;> decide +kernel
 
-/-- `li::marker { display: none }`: `marker_to_box` calls `make_box` before it tests the display, and
-`BOX_TYPE_FROM_DISPLAY` has no entry for `('none',)`: KeyError, the whole document fails. -/
-theorem marker_display_none_crash :
-    (match markerToBox ⟨{ display := ["none"] }, .inhibit, some [8226, 32]⟩ {} true 0 with
-      | .ok _ => none | .error e => some e) = some .keyError := by
-  decide +kernel
+/-- `li::marker { display: none }` (fixed by 848642f): `marker_to_box` tests the display before
+`make_box`; no marker box, no failure, the quote depth is untouched. -/
+theorem marker_display_none_no_box :
+    markerToBox ⟨{ display := ["none"] }, .inhibit, some [8226, 32]⟩ {} true 3 = .ok ([], 3) := by
+  rfl
 
 end Wp.Witness.C08
